@@ -23,9 +23,23 @@ import (
 // Sanitize archive file pathing from "G305: Zip Slip vulnerability"
 func sanitizeArchivePath(d, t string) (v string, err error) {
 	v = filepath.Join(d, t)
-	if strings.HasPrefix(v, filepath.Clean(d)) {
+	if isWithin(d, v) {
 		return v, nil
 	}
 
 	return "", fmt.Errorf("%s: %s", "content filepath is tainted", t)
+}
+
+// isWithin reports whether the cleaned path p is base itself or lies lexically below it.
+// The separator is part of the prefix: a plain strings.HasPrefix(p, base) also accepts
+// siblings of base such as base+"2".
+func isWithin(base, p string) bool {
+	base = filepath.Clean(base)
+	if p == base {
+		return true
+	}
+	if !strings.HasSuffix(base, string(filepath.Separator)) {
+		base += string(filepath.Separator)
+	}
+	return strings.HasPrefix(p, base)
 }
